@@ -78,7 +78,7 @@ func genC03(g *Rng, tier string, emit func(Op)) {
 		emit(declKey(k))
 	}
 	secrets := []*big.Int{randSecret(g), randSecret(g), randSecret(g)}
-	for r := 0; r < rounds; r++ {
+	for r := -3; r < rounds; r++ {
 		for n := 2; n <= 4; n++ {
 			kps := make([]*KeyPair, n)
 			iss := make([]bool, n)
@@ -88,6 +88,15 @@ func genC03(g *Rng, tier string, emit func(Op)) {
 				kps[i] = pool[g.intn(len(pool))]
 				iss[i] = g.intn(3) == 0
 				sidx[i] = g.intn(nsec)
+			}
+			if r < 0 {
+				// fixed shapes first, so that every adversarial class below occurs in every run: two
+				// members with different secrets, both issuance / both disclosure / one of each
+				if n > 2 {
+					continue
+				}
+				sidx = []int{0, 1}
+				iss = [][]bool{{true, true}, {false, false}, {true, false}}[r+3]
 			}
 			ss := make([]*big.Int, n)
 			for i := range ss {
